@@ -48,4 +48,21 @@ func TestC16Enum(t *testing.T) {
 			return emit(CaseHdrLine{Name: c.Name, WS: B(""), Tail: B("v")})
 		})
 	})
+	C16Parse.RunCases(t, "ParseHdrLine type for every table name and one-edit neighbour x {no blank, SP, HT, SP HT SP before the colon} x line offsets {0, 1, 7, 23}", true, func(emit func(CaseHdrLine) bool) {
+		names := hdrTableNames()
+		for _, ws := range []string{"", " ", "\t", " \t "} {
+			for _, pre := range []string{"", "\n", "x: y\r\n", "Via: SIP/2.0/UDP h\r\n"} {
+				for _, n := range names {
+					if !emit(CaseHdrLine{Name: B(n), WS: B(ws), Tail: B("v"), Pre: B(pre)}) {
+						return
+					}
+					for _, e := range []string{n + "x", n[1:] + "q", "x" + n} {
+						if !emit(CaseHdrLine{Name: B(e), WS: B(ws), Tail: B("v"), Pre: B(pre)}) {
+							return
+						}
+					}
+				}
+			}
+		}
+	})
 }
